@@ -50,16 +50,16 @@ CHECKS.update({
    text="Writer faults at every offset (six error kinds), flush failures, reader faults at every consumed offset, and generated schedules of short transfers and Interrupted errors, for plain, bzip2 and encrypted streams: a fault must surface as Err (no panic, no success), accepted bytes must be a prefix of the fault-free output (encrypted: whole chunks decrypting to a prefix), and without faults bytes and loaded values must not depend on the schedule.",
    note="Hangs would be reported as inconclusive (exit 2), not as violations. For types containing hash containers byte equality is relaxed to length/decodability because iteration order differs between saves."),
  "C14": dict(cat="fault_enumeration", design="DESIGN.md §3 C14",
-   technique="fault enumeration over generated encrypted files: byte modifications, truncations, chunk-level edits, wrong keys; independent frame parser on top of ring",
+   technique="fault enumeration over generated encrypted files: byte modifications, truncations, chunk-level edits, wrong keys; independent frame parser on top of ring; thorough tier adds a coverage-guided libFuzzer campaign (arbitrary bytes and edit scripts on a valid stream)",
    text="Generated values saved as multi-chunk encrypted streams and through save_encrypted_file; every byte position is modified (3 fixed + 1 generated flip; all 255 values on the nonce and first/last length fields), every truncation length, whole-chunk deletion/duplication/swap, wrong passwords and flipped key bits: all must give Err; the intact data with the right key must load.",
    note="Duplicating the final chunk (pure append after the logical end of the stream) is counted as excluded: no reader requests those bytes. File-based modifications are strided for files > 200 B."),
 })
 
 CHECKS.update({
  "C06": dict(cat="exploration", design="DESIGN.md §3 C06",
-   technique="fuzzing: structure-aware mutation of valid encodings (proptest, role-labelled spans from the reference encoder) with an in-process semantic oracle and crash attribution by worker processes",
+   technique="fuzzing: structure-aware mutation of valid encodings (proptest, role-labelled spans from the reference encoder) with an in-process semantic oracle and crash attribution by worker processes; thorough tier adds a coverage-guided libFuzzer+ASan campaign over 41 catalogue types (oracle in the target)",
    text="Valid encodings of generated types are mutated (lengths, tags, discriminants, chars, UTF-8, small arithmetic on count-like words inside private encodings, truncation, splices, random bodies) and loaded through single and bulk paths: the result must be Ok or Err; panics are violations unless they are allocation failures on a declared length the reference decoder confirms as absurd; for Ok every bool/char/enum discriminant must be valid and no collection may exceed what the input could encode. Process death is attributed to the case by the worker protocol.",
-   note="Inputs declaring lengths that would make the allocator fail (abort) or zero-width loops run for hours are skipped by a reference-decoder pre-screen or, when they slip through, counted as excepted (allocation >= 1 GiB for a < 4 kB input; 8 s per-case limit). Debug profile with overflow checks, no sanitizer: invalid values are detected by inspecting the returned memory (bool/char bytes, raw enum tags, bit containers longer than their storage), spatial errors only as crashes. The libFuzzer crate under fuzz/ is not used by this command (DESIGN.md §7.7)."),
+   note="Inputs declaring lengths that would make the allocator fail (abort) or zero-width loops run for hours are skipped by a reference-decoder pre-screen or, when they slip through, counted as excepted (allocation >= 1 GiB for a < 4 kB input; 8 s per-case limit). Debug profile with overflow checks, no sanitizer: invalid values are detected by inspecting the returned memory (bool/char bytes, raw enum tags, bit containers longer than their storage), spatial errors only as crashes. The quick tier uses no sanitizer; the thorough tier's libFuzzer stage (fuzz/c06_catalogue, DESIGN.md §7.7) runs under AddressSanitizer on a nightly build with savefile's size_sanity_checks feature."),
 })
 
 CHECKS.update({
@@ -87,7 +87,7 @@ CHECKS.update({
    text="Part A: for generated, fully annotated schema trees every single layout-relevant mutation (size, alignment, offset changed or unknown, discriminant width, explicit-repr flag, Vec/String layout, counts, primitive kind, array length) at any depth must make layout_compatible false in both directions, and trees with anything unknown must be incompatible with themselves. Derived part: schemas of generated definition pairs that pass the wire gate but differ in memory (explicit discriminant values) must not be layout compatible. Cross-version by-reference passing is exercised end to end by C10.",
    note="NOT covered: an implementation compiled by another compiler / with -Zrandomize-layout loaded through load_shared_library (no cdylib harness was built); 'different compiler' is therefore only represented at the schema level."),
  "C13": dict(cat="exploration", design="DESIGN.md §3 C13",
-   technique="property-based testing with an own generator over all schema node kinds, differential against an independent reference grammar (formats 0/1/2), metamorphic completeness of diff_schema, byte-flip fuzzing of schema sections, exhaustive small scope",
+   technique="property-based testing with an own generator over all schema node kinds, differential against an independent reference grammar (formats 0/1/2), metamorphic completeness of diff_schema, byte-flip fuzzing of schema sections, exhaustive small scope; thorough tier adds a coverage-guided libFuzzer+ASan campaign on persisted schema bytes",
    text="Generated schema values (all node kinds incl. traits, closures, futures, recursion markers) are written by the library at formats 1 and 2 (bytes must equal the reference grammar) and read back (equal; format 1 modulo receiver/async), reference format-0 bytes must decode to the schema minus layout annotations, diff_schema(s,s) must be None, every single wire-altering mutation must be reported in both directions, and corrupted schema bytes must never panic. A reduced alphabet is enumerated exhaustively up to 3 levels.",
    note="Format 0 is reconstructed from the documented 0.16->0.17 expansion; mutations inside trait definitions are not asserted (not listed by the property)."),
 })
